@@ -19,6 +19,8 @@ import DateutilVerif.Proofs.RRuleStrRule
 import DateutilVerif.Proofs.RRuleStrFold
 import DateutilVerif.Proofs.RRuleStrTzid
 import DateutilVerif.Proofs.RRuleStrDate
+import DateutilVerif.Proofs.RRuleStrGenStr
+import DateutilVerif.Proofs.RRuleStrGenRule
 
 namespace C13
 open RRuleStr
@@ -562,5 +564,109 @@ theorem date_text_read_back (cls : Char → PM.CClass) [PM.AsciiOK cls] (yf : Bo
 
 example : showDT (sixOf ⟨999, 1, 2, 3, 4, 5, 0⟩) = lit "09990102T030405" := by
   rw [showDT_eq_renderCompact _ (by decide)]; decide
+
+/-! ## 13. the printer as written: `rrule.__str__` translated from source -/
+
+/-- **`Gen.rruleStr` — the WHOLE method `rrule.__str__` re-translated from source on every run (DTSTART with the zero-padded year,
+    FREQ from the dumped `FREQNAMES`, INTERVAL unless 1, WKST under the repaired condition `self._wkst or calendar.firstweekday()`,
+    COUNT, the zero-padded UNTIL, the weekday conversion loop, the BY parts of `_original_rule` in the order of the method's table)
+    — equals the model's `toStr`** on every rule in printable form. -/
+theorem gen_str_eq_model (x : StrIn) (hx : Printable x) : Gen.rruleStr x = toStr x := gen_rruleStr_eq_toStr x hx
+
+/-- hence the round trip holds of the printer AS WRITTEN: `str_roundtrip` with the source translation in place of `toStr` -/
+theorem str_roundtrip_source (x : StrIn) (hx : Printable x) (t : Nat × Nat × Nat × Nat × Nat × Nat) (ht : x.dtstart = some t)
+    (o : Opts) (hu : o.unfold = false) (hf : o.forceset = false) (hc : o.compatible = false) (kw : Bool) :
+    parseRfc (Gen.rruleStr x) o kw = .ok (.rule (argsOf o.po x) (some (showDT t, [], o.po)) o.cache) := by
+  rw [gen_str_eq_model x hx]; exact str_roundtrip x hx t ht o hu hf hc kw
+
+example : Gen.rruleStr sample = toStr sample := gen_str_eq_model sample (by
+  constructor <;> first | decide | (intro l h; cases h; decide))
+
+/-! ## 14. the part parser as written: `_parse_rfc_rrule` and the `_handle_*` dispatch translated from source -/
+
+/-- the item splitter of `_handle_BYWEEKDAY` as translated from source — `if '(' in wday:` (`splt = wday.split('(')`, `splt[0]`,
+    `int(splt[1][:-1])`), `elif len(wday):` with the scan `for i in range(len(wday)): if wday[i] not in '+-0123456789': break`,
+    `n = wday[:i] or None`, `w = wday[i:]`, `if n: n = int(n)`, else ValueError; then `weekdays[self._weekday_map[w]](n)` — equals the
+    model's `parseWDay` on EVERY text (so `byday_spellings` and `malformed_byday_items` hold of the code as written) -/
+theorem gen_wday_eq_model (w : List Char) : Gen.rrsWDay w = parseWDay w := gen_wday_eq w
+
+example : Gen.rrsWDay (lit "MO(+1)") = .ok (0, some 1) ∧ Gen.rrsWDay (lit "-2FR") = .ok (4, some (-2)) ∧
+    Gen.rrsWDay (lit "12") = .error .KeyError ∧ Gen.rrsWDay (lit "0MO") = .error .ValueError := by decide
+
+/-- `getattr(self, "_handle_" + name)(…)` resolved against the class body as written — `_handle_int` (INTERVAL, COUNT),
+    `_handle_int_list` (the nine integer BY parts), `_handle_FREQ` / `_handle_WKST` with the dumped `_freq_map` / `_weekday_map`,
+    `_handle_UNTIL` (text and options kept for `parser.parse`), `_handle_BYWEEKDAY` = BYDAY with its translated item splitter
+    (`gen_wday_eq_model`) — equals the model's `handleU`, for every name and value. -/
+theorem gen_handle_eq_model (name value : List Char) : Gen.rrsHandle po name value = handleU po name value :=
+  gen_handle_eq po name value
+
+/-- **the WHOLE method `_parse_rfc_rrule` as translated from source** (optional `RRULE:` head, the loop over the `;` parts with
+    `split('=')`, upper-casing, the handler call and the `try` statement's exception mapping, the FREQ check) **equals the model's
+    `ruleOf`**: the keyword arguments handed to `rrule()`, or ValueError — for every line and all options.  The `try` statement maps
+    only AttributeError / KeyError / ValueError to ValueError; that this is "every failure" is `handleU_errIn`. -/
+theorem gen_parse_rfc_rrule_eq_model (line : List Char) : Gen.rrsParseRule po line = ruleOf po line := gen_parseRule_eq po line
+
+/-- the text round trip through the two translated methods: `_parse_rfc_rrule(RRULE line of __str__)` gives the printed arguments -/
+theorem str_roundtrip_line_source (x : StrIn) (hx : Printable x) :
+    Gen.rrsParseRule po (rruleLineOf x) = .ok (argsOf po x) := by
+  rw [gen_parse_rfc_rrule_eq_model]
+  unfold ruleOf
+  rw [str_roundtrip_line x hx]
+  rfl
+
+example : Gen.rrsParseRule {} (lit "RRULE:FREQ=WEEKLY;COUNT=3;BYDAY=+1MO,TU") =
+    .ok { freq := some 2, count := some 3, byweekday := some [(0, some 1), (1, none)] } := by decide
+example : Gen.rrsParseRule {} (lit "FREQ=DAILY;FOO=1") = .error .ValueError := by decide
+
+/-- `_rrulestr.__call__` as translated from source is a pure delegation: `rrulestr(s, **kwargs)` IS `_parse_rfc(s, **kwargs)` (any edit of
+    that one-line method — a cache, a changed default, a dropped keyword — makes the translation fail or this obligation break) -/
+theorem gen_call_eq_model (s : List Char) (o : Opts) (kw : Bool) : Gen.rrsCall s o kw = parseRfc s o kw := gen_parseRfc_eq s o kw
+
+/-- **the WHOLE of `_parse_date_value` as translated from source** (`Gen.rrsParseDateValue`: the parameter loop, then for every
+    `,`-separated value `parser.parse` — a given function, C02 — with OverflowError turned into ValueError, the attach statement, the
+    append): ValueError exactly when `dateParmsOk` fails, otherwise every value parsed and given the zone `<lookup>(resolveTzid …)` -/
+theorem gen_parse_date_value_eq_model {D : Type} (parse : List Char → Py.R (D × Option StrPy.Zone)) (value : List Char)
+    (parms : List (List Char)) (t : StrPy.Dict) (k : StrPy.TzidsKind) (lk : StrPy.Lookup) (hk : lookupOf k = some lk) :
+    Gen.rrsParseDateValue parse value parms t k =
+      match dateParmsOk parms with
+      | .error _ => .error .ValueError
+      | .ok _ => (splitOnChar ',' value).mapM (fun d =>
+          (match parse d with | .error .OverflowError => .error .ValueError | r => r) >>= fun date =>
+          (Gen.rrsAttach ((resolveTzid t parms).map (StrPy.Zone.looked lk)) date.2) >>= fun z => .ok (date.1, z)) :=
+  gen_parseDateValue_eq parse value parms t k lk hk
+
+/-- for values `parser.parse` reads as naive datetimes (`date_text_read_back`: the texts `__str__` prints), every value of the line gets the
+    zone of the line's TZID parameter, none without one — what the model's `stepLine` records as `(value, parms)` and `tzidOf` resolves -/
+theorem gen_parse_date_value_naive {D : Type} (f : List Char → D) (value : List Char) (parms : List (List Char))
+    (t : StrPy.Dict) (k : StrPy.TzidsKind) (lk : StrPy.Lookup) (hk : lookupOf k = some lk) (hp : dateParmsOk parms = .ok ()) :
+    Gen.rrsParseDateValue (fun d => .ok (f d, none)) value parms t k =
+      .ok ((splitOnChar ',' value).map (fun d => (f d, (resolveTzid t parms).map (StrPy.Zone.looked lk)))) :=
+  gen_parseDateValue_naive f value parms t k lk hk hp
+
+/-- **the line dispatch of `_parse_rfc` as translated from source** (`Gen.rrsStepLine`: the body of `for line in lines:` — empty lines
+    skipped, `name[;parms]:value` split, RRULE / EXRULE without parameters, RDATE with `VALUE=DATE-TIME` only, EXDATE / DTSTART through the
+    parameter check of `_parse_date_value`, exactly one DTSTART value, anything else ValueError) **equals the model's `stepLine`**, hence
+    the whole loop: `multi_line_builds_set` / `multi_line_single_rule` / `options_reach_every_path` speak of the dispatch as written -/
+theorem gen_dispatch_eq_model (acc : Acc) (line : List Char) : Gen.rrsStepLine po acc line = stepLine po acc line :=
+  gen_stepLine_eq po acc line
+
+theorem gen_dispatch_loop_eq_model (lines : List (List Char)) (acc : Acc) :
+    lines.foldlM (Gen.rrsStepLine po) acc = lines.foldlM (stepLine po) acc := by
+  have : Gen.rrsStepLine po = stepLine po := by funext a l; exact gen_stepLine_eq po a l
+  rw [this]
+
+/-- **the WHOLE of `_rrulestr._parse_rfc` as translated from source** — the prefix (`Gen.rrsPrefix`), the single-line fast path, the line
+    dispatch loop (`Gen.rrsStepLine`), the decision for a set, the set building with its four member kinds and the `compatible` DTSTART,
+    the single-rule exit; rule lines through the translated `_parse_rfc_rrule` — **equals the model's `parseRfc`** for every text and all
+    options: every theorem of this file about `parseRfc` (`errors_are_ValueError`, `case_irrelevant`, `str_roundtrip*`,
+    `multi_line_builds_set`, `forceset`, `compatible*`, `options_reach_every_path`) holds of the parser AS WRITTEN -/
+theorem gen_parse_rfc_eq_model (s0 : List Char) (o : Opts) (kw : Bool) : Gen.rrsParseRfc s0 o kw = parseRfc s0 o kw :=
+  gen_parseRfc_eq s0 o kw
+
+/-- the round trip through the two translated functions: `rrulestr(str(rule))`, both as written -/
+theorem str_roundtrip_source_both (x : StrIn) (hx : Printable x) (t : Nat × Nat × Nat × Nat × Nat × Nat) (ht : x.dtstart = some t)
+    (o : Opts) (hu : o.unfold = false) (hf : o.forceset = false) (hc : o.compatible = false) (kw : Bool) :
+    Gen.rrsCall (Gen.rruleStr x) o kw = .ok (.rule (argsOf o.po x) (some (showDT t, [], o.po)) o.cache) := by
+  rw [gen_call_eq_model]; exact str_roundtrip_source x hx t ht o hu hf hc kw
 
 end C13
